@@ -110,6 +110,19 @@ def cases_C10(tier, seed):
             for rem in removal_sets:
                 zt = [t for i, t in enumerate(times) if i not in rem]
                 yield {"step": step, "wl_times": zt, "shuffle": (len(rem) + n) % 2 == 1}
+    # short gaps: one source step only a little longer than the minimal step (x1.25, x1.5, x2), placed so that a grid
+    # instant lies strictly inside it, next to an ordinary long gap
+    for wstep, short in ((1200, 1500), (1200, 1800), (2400, 3600), (1200, 2400)):
+        for at in (2, 4):
+            t, zt = E0 + 3 * step + 600, []
+            for k in range(9):
+                zt.append(t)
+                t += short if k == at else (5 * wstep if k == 6 else wstep)
+            inside = [e for e in range(E0, zt[-1], step) if zt[at] < e < zt[at + 1]]
+            if not inside:
+                shift = (zt[at] // step + 1) * step - zt[at] - 300       # put a grid instant 300 s after the gap's start
+                zt = [x + shift for x in zt]
+            yield {"step": step, "wl_times": zt, "shuffle": at == 4}
     for _ in range(20 if tier == "quick" else 300):
         wstep = rng.choice([600, 900, 1200, 1800, 3600])
         n = rng.randint(3, 12)
